@@ -400,6 +400,24 @@ Section Mix.
   End Types.
 End Mix.
 
+(* the result of a mix call does not depend on what the result object held before: it is a function of (s, ss) only *)
+Lemma fold_push_firstn {A} (l : list A) : forall acc, (length acc <= max_cards)%nat ->
+  fold_left stack_push l acc = firstn max_cards (acc ++ l).
+Proof.
+  induction l as [|x l IH]; intros acc H; cbn [fold_left].
+  - rewrite app_nil_r. symmetry. apply firstn_all2. exact H.
+  - unfold stack_push at 2. destruct (Nat.ltb_spec (length acc) max_cards) as [Lt|Ge].
+    + rewrite IH by (rewrite app_length; cbn [length]; lia). now rewrite <- app_assoc.
+    + rewrite IH by exact H. rewrite !firstn_app. replace (max_cards - length acc)%nat with O by lia. now rewrite !firstn_O.
+Qed.
+
+Theorem mix_into_ignores_old (card secret : Type) (mask : card -> secret -> card) old s ss :
+  mix_into card secret mask old s ss = mix card secret mask s ss.
+Proof.
+  unfold mix_into, mix. destruct (negb _); [reflexivity|]. destruct (seq_res _); cbn [bind]; try reflexivity.
+  f_equal. unfold stack_clear. apply fold_push_firstn. cbn [length]. lia.
+Qed.
+
 (* ---- find_position ------------------------------------------------------------------------------------ *)
 Lemma find_position_from_shift {A} (l : list (N * A)) i : forall pos,
   find_position_from pos l i = (pos + find_position_from 0 l i)%nat.
